@@ -21,4 +21,132 @@ theorem inTz_compose (z z' z'' : Z) (h' : z'.WF) (l : Local) :
   unfold inTz; rw [toUtc_fromUtc z' h']
 
 
+/-! ### the same statements on the DateTime-level model (`DTOps`), which is what the correspondence run ties to the code -/
+open Pendulum.DTOps
+
+/-- the well-formedness a zone reference needs: named tables must be `WF`; fixed offsets always are -/
+def ZRef.WF : ZRef → Prop
+  | .named z => z.WF
+  | _ => True
+
+theorem table_wf {t : ZRef} {zt : Z} (hw : ZRef.WF t) (ht : t.table = some zt) : zt.WF := by
+  cases t with
+  | named z => simp [ZRef.table] at ht; subst ht; exact hw
+  | fixed off => simp [ZRef.table] at ht; subst ht; simp [Z.WF, fixedZ, Zone.WF]
+  | naive => simp [ZRef.table] at ht
+
+/-- a `FixedTimezone` is the zone without transitions: constant offset, fold never set -/
+theorem fixed_is_zone (off u w : Int) (f : Bool) :
+    (fixedZ off).WF ∧ (fixedZ off).off u = off ∧ (fixedZ off).woff f w = off ∧ (fixedZ off).foldOf u = false := by
+  simp [Z.WF, fixedZ, Zone.WF, Z.off, offAt, Z.woff, wallOff, Z.foldOf, foldAt]
+
+/-- what `inTz` returns for an aware source and a distinct target object -/
+theorem inTz_ok_shape (v r : V) (t : ZRef) (zt : Z) (hv : v.z.table ≠ none) (ht : t.table = some zt)
+    (h : DTOps.inTz v t false = .ok r) :
+    r.z = t ∧ r.w = (fromUtc zt v.instant).w ∧ r.fold = (fromUtc zt v.instant).fold := by
+  unfold DTOps.inTz at h
+  simp only [Bool.false_eq_true, if_false] at h
+  cases hz : v.z with
+  | naive => simp [hz, ZRef.table] at hv
+  | named z0 =>
+    simp only [hz, ht] at h
+    split at h
+    · injection h with h; subst h
+      refine ⟨rfl, rfl, ?_⟩
+      cases t with
+      | fixed off => simp [ZRef.table] at ht; subst ht; simp [fromUtc, fixedZ, Z.foldOf, foldAt]
+      | named _ => rfl
+      | naive => simp [ZRef.table] at ht
+    · cases h
+  | fixed o0 =>
+    simp only [hz, ht] at h
+    split at h
+    · injection h with h; subst h
+      refine ⟨rfl, rfl, ?_⟩
+      cases t with
+      | fixed off => simp [ZRef.table] at ht; subst ht; simp [fromUtc, fixedZ, Z.foldOf, foldAt]
+      | named _ => rfl
+      | naive => simp [ZRef.table] at ht
+    · cases h
+
+/-- **conversion preserves the instant**, to the unit of the table (microseconds), for every aware source,
+    every target zone or fixed offset -/
+theorem inTz_instant_dt (v r : V) (t : ZRef) (zt : Z) (hv : v.z.table ≠ none) (ht : t.table = some zt)
+    (hw : ZRef.WF t) (h : DTOps.inTz v t false = .ok r) : r.instant = v.instant := by
+  obtain ⟨e1, e2, e3⟩ := inTz_ok_shape v r t zt hv ht h
+  have hwf := table_wf hw ht
+  unfold V.instant V.offset
+  rw [e1, ht]
+  simp only []
+  rw [e2, e3]
+  exact toUtc_fromUtc zt hwf v.instant
+
+/-- **local fields and offset are the ones the zone table assigns to that instant**, and the zone is the requested one -/
+theorem inTz_fields_dt (v r : V) (t : ZRef) (zt : Z) (hv : v.z.table ≠ none) (ht : t.table = some zt)
+    (hw : ZRef.WF t) (h : DTOps.inTz v t false = .ok r) :
+    r.z = t ∧ r.w = v.instant + zt.off v.instant ∧ r.offset = zt.off v.instant := by
+  obtain ⟨e1, e2, e3⟩ := inTz_ok_shape v r t zt hv ht h
+  have hwf := table_wf hw ht
+  refine ⟨e1, e2, ?_⟩
+  unfold V.offset
+  rw [e1, ht]
+  simp only []
+  rw [e2, e3]
+  exact roundtrip zt.trs zt.init v.instant hwf
+
+/-- **A→B→C = A→C** on every observable (zone, wall fields, offset; hence the instant) -/
+theorem inTz_compose_dt (v r1 r2 r3 : V) (b c : ZRef) (zb zc : Z) (hv : v.z.table ≠ none)
+    (hb : b.table = some zb) (hc : c.table = some zc) (hwb : ZRef.WF b) (hwc : ZRef.WF c)
+    (h1 : DTOps.inTz v b false = .ok r1) (h2 : DTOps.inTz r1 c false = .ok r2) (h3 : DTOps.inTz v c false = .ok r3) :
+    r2.z = r3.z ∧ r2.w = r3.w ∧ r2.offset = r3.offset := by
+  have i1 := inTz_instant_dt v r1 b zb hv hb hwb h1
+  have hr1 : r1.z.table ≠ none := by
+    rw [(inTz_ok_shape v r1 b zb hv hb h1).1, hb]; simp
+  obtain ⟨a1, a2, a3⟩ := inTz_fields_dt r1 r2 c zc hr1 hc hwc h2
+  obtain ⟨b1, b2, b3⟩ := inTz_fields_dt v r3 c zc hv hc hwc h3
+  rw [i1] at a2 a3
+  exact ⟨by rw [a1, b1], by rw [a2, b2], by rw [a3, b3]⟩
+
+/-- **`int_timestamp` inverts `from_timestamp`**: a timestamp of `t` seconds and `us` microseconds rendered in any
+    zone reports `t` again (UTC is the table without transitions and offset 0) -/
+theorem fromTimestamp_intTimestamp (t us : Int) (f : Bool) (tz : ZRef) (zt : Z) (r : V) (hus : 0 ≤ us ∧ us < AddDur.US)
+    (ht : tz.table = some zt) (hw : ZRef.WF tz)
+    (h : DTOps.inTz ⟨.named ⟨0, []⟩, t * AddDur.US + us, f⟩ tz false = .ok r) :
+    r.instant / AddDur.US = t := by
+  have hi := inTz_instant_dt _ r tz zt (by simp [ZRef.table]) ht hw h
+  rw [hi]
+  simp only [V.instant, V.offset, ZRef.table, Z.woff, wallOff]
+  unfold AddDur.US at *
+  omega
+
+/-- **`instance()` of an aware native value keeps its instant**: if the source's own offset `srcOff` is one the zone
+    assigns to that wall time (for either fold) — which is what "an aware datetime in that zone" means — the result
+    denotes `w - srcOff`, whatever the source's fold bit was (pytz never sets it) -/
+theorem instance_instant (z : Z) (w srcOff : Int) (fold f0 : Bool) (r : V)
+    (hsrc : srcOff = z.woff f0 w) (hns : ¬ z.woff true w > z.woff false w)
+    (h : instanceAware (.named z) w fold srcOff = .ok r) : r.instant = w - srcOff := by
+  unfold instanceAware at h
+  simp only [ZRef.table] at h
+  -- the fold actually used has offset srcOff
+  have key : ∀ f' : Bool, z.woff f' w = srcOff → DTOps.create (.named z) w f' false = .ok r → r.instant = w - srcOff := by
+    intro f' hf' hc
+    unfold DTOps.create at hc
+    simp only [convertNaive, hns, if_false, Bool.false_eq_true, and_false] at hc
+    split at hc
+    · injection hc with hc; subst hc
+      simp [V.instant, V.offset, ZRef.table, hf']
+    · cases hc
+  by_cases c : z.woff fold w ≠ srcOff ∧ z.woff (!fold) w = srcOff
+  · rw [if_pos c] at h; exact key _ c.2 h
+  · rw [if_neg c] at h
+    have : z.woff fold w = srcOff := by
+      cases hf : f0 <;> cases hg : fold <;> simp_all
+    exact key _ this h
+
+/-! non-vacuity: a two-transition table, a value inside its overlap, a conversion that succeeds -/
+example : (⟨3600, [⟨1000000, 7200⟩, ⟨2000000, 3600⟩]⟩ : Z).WF := by
+  simp [Z.WF, Zone.WF, absI]
+example : (DTOps.inTz ⟨.named ⟨3600, [⟨1000000, 7200⟩, ⟨2000000, 3600⟩]⟩, 2005000, true⟩ (.fixed 0) false).toOption.map (·.w)
+    = some 2001400 := by decide
+
 end Pendulum.Props.C01
